@@ -14,6 +14,7 @@ CONSTANTS
   Faults = FALSE
   Full = TRUE
   DetOnly = TRUE
+  Wrong = "none"
 INIT Init
 NEXT Next
 VIEW View
